@@ -429,3 +429,10 @@ def pool_desc(pool, li):
         if spec['id'] == li:
             return {k: v for k, v in spec.items() if k not in ('src', 'drop', 'id', 'data_seed')}
     return {}
+
+
+def selftest_digests(seed, n, scratch):
+    pool, _ = build_pool(seed, 10, scratch, gate=False)
+    ctx = {'seed': seed, 'pool': pool}
+    results, _, _ = common.run_parallel(lambda c, run: one_run(c, run)['ed'], ctx, range(n), chunk=7)
+    return [d for _, d in sorted(results)]
